@@ -439,6 +439,64 @@ func runC15(c *core.Ctx) {
 	if !e.stopped {
 		c15HostileKeys(c, e)
 	}
+	if !e.stopped {
+		c15RepeatedSignatures(c, e)
+	}
+}
+
+// c15RepeatedSignatures: files whose signature list names one key several times (in a row, around
+// another key's entry, with valid and with junk values); the whole post-load API - in particular
+// signing again with that very key - must cope.
+func c15RepeatedSignatures(c *core.Ctx, e *c15Env) {
+	if c.Shard != 7%c.NShards {
+		return
+	}
+	done := int64(0)
+	k, other := e.keys[0], e.keys[1]
+	for _, dsse := range []bool{false, true} {
+		md, err := gen.SignedMeta(gen.NewLink("s", nil, gen.Artifacts(map[string]string{"a": "b"})), dsse, k.Priv, other.Priv)
+		if err != nil {
+			continue
+		}
+		raw := dumpBytes(c, md)
+		doc, err := gen.ParseJSON(raw)
+		if err != nil {
+			continue
+		}
+		d := doc.(map[string]any)
+		sigs := d["signatures"].([]any)
+		K, X := sigs[0], sigs[1]
+		junk := gen.DeepCopy(K).(map[string]any)
+		junk["sig"] = "00"
+		if dsse {
+			junk["sig"] = "AAAA"
+		}
+		lists := map[string][]any{
+			"K,K": {K, K}, "K,K,K": {K, K, K}, "X,K,K": {X, K, K}, "K,X,K": {K, X, K}, "K,K,X": {K, K, X}, "K,junk,K": {K, junk, K},
+			"junk,junk": {junk, junk}, "K,X,K,X,K": {K, X, K, X, K}, "X,X,K": {X, X, K},
+		}
+		var names []string
+		for n := range lists {
+			names = append(names, n)
+		}
+		sort.Strings(names)
+		for _, n := range names {
+			id := fmt.Sprintf("repeated-signatures/dsse=%v/%s", dsse, n)
+			if !c.Want(id) || e.stopped {
+				continue
+			}
+			d2 := gen.DeepCopy(d).(map[string]any)
+			d2["signatures"] = lists[n]
+			b, _ := json.Marshal(d2)
+			c.Begin(id)
+			e.loadBoth(id, b, map[string]any{"signature_list": n, "dsse": dsse})
+			c.End(id)
+			c.Eval(1)
+			c.Class("repeated-signatures", dsse, n)
+			done++
+		}
+	}
+	c.Obs("files_with_repeated_signature_entries_exercised", done)
 }
 
 // c15HostileKeys: key objects as a hostile layout, link or caller can present them (a key map in a
@@ -805,6 +863,15 @@ func c15HostileDirs(c *core.Ctx, e *c15Env, fast []gen.KeyPair) {
 	hs := []hostile{
 		{"garbage bytes", func(ch *gen.Chain, n string) { os.WriteFile(n, []byte("\x00\xff garbage"), 0644) }},
 		{"empty file", func(ch *gen.Chain, n string) { os.WriteFile(n, nil, 0644) }},
+		{"envelopes with the right payload type whose payload cannot be decoded", func(ch *gen.Chain, n string) {
+			// (whatever wrapper the chain uses: a link directory may hold both kinds of files)
+			payloads := []string{"@@@ not base64 @@@", base64.StdEncoding.EncodeToString([]byte("not json")), base64.StdEncoding.EncodeToString([]byte("{}")),
+				base64.StdEncoding.EncodeToString([]byte(`{"_type":"link","name":"write"}`)), base64.StdEncoding.EncodeToString([]byte(`{"_type":"link","name":"write","materials":{},"products":{},"byproducts":{},"command":[],"environment":{},"surprise":1}`)), ""}
+			for i, pl := range payloads {
+				b, _ := json.Marshal(map[string]any{"payloadType": intoto.PayloadType, "payload": pl, "signatures": []any{map[string]any{"keyid": strings.Repeat("ab", 32), "sig": "AAAA"}}})
+				os.WriteFile(filepath.Join(ch.LinkDir, fmt.Sprintf("write.%08x.link", 0xbb000000+i)), b, 0644)
+			}
+		}},
 		{"forty unloadable files named like links of the step next to the honest one", func(ch *gen.Chain, n string) {
 			for i := 0; i < 40; i++ {
 				p := filepath.Join(ch.LinkDir, fmt.Sprintf("write.%08x.link", 0xaa000000+i))
@@ -1041,7 +1108,7 @@ func init() {
 	core.Register(&core.Property{
 		ID:    "C15",
 		Level: "exploration",
-		Rule: "(1) byte strings offered as metadata files: random bytes, random JSON-alphabet strings and random concatenations of metadata fragments of 0-4 KiB; structure-aware mutations (null, other type, delete, insert, rename, replace at every JSON path, also inside DSSE payloads incl. URL-safe and unpadded base64; hostile values: huge/negative/float/exponent numbers, 70 KB strings, invalid UTF-8, NUL, nested empties; BOM, trailing bytes, truncation, duplicated member, bit flips) of valid links and layouts in both wrappers; 10000-deep nesting, 1 MiB strings, 10000 signatures - all through LoadMetadata and Metablock.Load, and whatever loads goes through ValidateMetablock, GetSignableRepresentation, Sigs, GetSignatureForKeyID, GetCertificate, VerifySignature with 3 key types, Sign with 2 key types; (2) a catalogue of degenerate but correctly signed layouts (empty / one-token / odd rules in steps and inspections, thresholds 0, negative, 2^62, with present / missing / unverifiable links, no steps, duplicated and hostile names, keys whose type contradicts their material, truncated and garbage PEM, Ed25519 halves of 0..128 hex characters, garbage certificates and CAs, odd pubkeys, huge lists, odd inspection commands) x 2 wrappers x 2 entry points through Sign, InTotoVerify*, LoadMetadata, ValidateMetablock (complete enumeration of the catalogue: fault-enumeration style); (3) hostile link directories under a sane layout (garbage, empty, forty unloadable files named like links of one step, directory / dangling symlink / symlink loop / named pipe / symlink to /dev/zero named like a link, unreadable file, odd and 20000 signatures, garbage certificates, null collections, odd hash objects, sublayouts: with directory, directory symlinked to its parent, two self-referencing steps, odd type marker, garbage content, keys section contradicting the functionary's key; thorough: 64 MiB file); (4) malformed key objects: RSA / ECDSA P-256 / P-384 / Ed25519 keys with every combination of {own public, own private, empty, garbage, certificate, PEM with garbage body, PEM blocks that hold no key (EC PARAMETERS, CRL), the halves of each other key type} in the public and private field, used by Sign and VerifySignature of both wrappers (a genuine signature present under the id) and as functionary key of a layout that has a link under its id; (5) thorough only: coverage-guided native fuzzing (go test -fuzz, bounded by execution count) of three targets. " +
+		Rule: "(1) byte strings offered as metadata files: random bytes, random JSON-alphabet strings and random concatenations of metadata fragments of 0-4 KiB; structure-aware mutations (null, other type, delete, insert, rename, replace at every JSON path, also inside DSSE payloads incl. URL-safe and unpadded base64; hostile values: huge/negative/float/exponent numbers, 70 KB strings, invalid UTF-8, NUL, nested empties; BOM, trailing bytes, truncation, duplicated member, bit flips) of valid links and layouts in both wrappers; 10000-deep nesting, 1 MiB strings, 10000 signatures - all through LoadMetadata and Metablock.Load, and whatever loads goes through ValidateMetablock, GetSignableRepresentation, Sigs, GetSignatureForKeyID, GetCertificate, VerifySignature with 3 key types, Sign with 2 key types; (2) a catalogue of degenerate but correctly signed layouts (empty / one-token / odd rules in steps and inspections, thresholds 0, negative, 2^62, with present / missing / unverifiable links, no steps, duplicated and hostile names, keys whose type contradicts their material, truncated and garbage PEM, Ed25519 halves of 0..128 hex characters, garbage certificates and CAs, odd pubkeys, huge lists, odd inspection commands) x 2 wrappers x 2 entry points through Sign, InTotoVerify*, LoadMetadata, ValidateMetablock (complete enumeration of the catalogue: fault-enumeration style); (3) hostile link directories under a sane layout (garbage, empty, envelopes with the right payload type and an undecodable / incomplete payload, forty unloadable files named like links of one step, directory / dangling symlink / symlink loop / named pipe / symlink to /dev/zero named like a link, unreadable file, odd and 20000 signatures, garbage certificates, null collections, odd hash objects, sublayouts: with directory, directory symlinked to its parent, two self-referencing steps, odd type marker, garbage content, keys section contradicting the functionary's key; thorough: 64 MiB file); (4) malformed key objects: RSA / ECDSA P-256 / P-384 / Ed25519 keys with every combination of {own public, own private, empty, garbage, certificate, PEM with garbage body, PEM blocks that hold no key (EC PARAMETERS, CRL), the halves of each other key type} in the public and private field, used by Sign and VerifySignature of both wrappers (a genuine signature present under the id) and as functionary key of a layout that has a link under its id; (5) files whose signature list names the key that is then used for signing two or three times (9 list shapes x 2 wrappers) through the whole post-load API; (6) thorough only: coverage-guided native fuzzing (go test -fuzz, bounded by execution count) of three targets. " +
 			"Monitors: recover() + journal attribution of process-fatal errors; hang = >20 CPU-s on a small input (spinning) or a thread of ours blocked in open/read on a pipe with no CPU progress over 3 samples (witness from /proc), else inconclusive. non-trivial = input differs from every valid seed; distinct = hash of the input / catalogue entry",
 		Assumptions: []string{"zero-value Go objects that no loader can produce (an Envelope without inner envelope, nil Metadata) are API misuse, not metadata, and are not offered", "a call that is slow but makes progress is inconclusive after 120 s"},
 		Workers:     func(string) int { return 16 },
